@@ -121,24 +121,38 @@ recs = records("long_msg")
 msg = recs[0].get("error_message", "") if recs else ""
 report("pipe/full-message (control)", msg == LONG, f"record carries {len(msg)} of {len(LONG)} chars")
 
-# ---- pipe: stream method returning a non-Stream -> dispatched call without any record -------------
+# ---- pipe: dispatched stream call whose client goes away after the init -> no record at all -------------
+# (a stream method returning a non-Stream took the same unlogged exit until the init region was guarded)
 cap.lines.clear()
+import pyarrow as pa  # noqa: E402
+
+from vgi_rpc.rpc._transport import make_pipe_pair  # noqa: E402
+from vgi_rpc.rpc._wire import _write_request  # noqa: E402
 
 
-def _call_bad_stream() -> None:
+class GoodImpl(Impl):
+    def bad_stream(self) -> Stream[CountState]:
+        return Stream(output_schema=pa.schema([("n", pa.int64())]), state=CountState())
+
+
+client_t, server_t = make_pipe_pair()
+srv = RpcServer(Svc, GoodImpl())
+t = threading.Thread(target=lambda: _swallow(lambda: srv.serve(server_t)), daemon=True)
+
+
+def _swallow(f) -> None:  # noqa: ANN001
     try:
-        with serve_pipe(Svc, Impl()) as proxy:
-            for _ in proxy.bad_stream():
-                pass
+        f()
     except BaseException:
         pass
 
 
-t = threading.Thread(target=_call_bad_stream, daemon=True)
 t.start()
+_write_request(client_t.writer, "bad_stream", pa.schema([]), {})
+client_t.writer.close()  # the client disappears instead of opening its input stream
 t.join(timeout=5)
 recs = records("bad_stream")
-report("pipe/stream-init-failure-logged", len(recs) == 1, f"{len(recs)} access-log record(s) for a dispatched stream call whose result was not a Stream (client {'still blocked' if t.is_alive() else 'returned'})")
+report("pipe/stream-call-abandoned-after-init-logged", len(recs) == 1, f"{len(recs)} access-log record(s) for a dispatched stream call (init ran) whose client closed before sending input")
 
 # ---- formatter: over-size stream record -> sentinel form drops stream_id (schema: stream requires stream_id) ----
 fmt = VgiAccessLogFormatter(max_record_bytes=600)
